@@ -181,6 +181,24 @@ func runC18(rec *kit.Recorder, c c18Case) error {
 		return err
 	}
 	defer os.RemoveAll(dir)
+	// repositories indexed through index.Builder get its skip decisions
+	// (e.g. a 2-byte file is replaced by the NOT-INDEXED marker): the model
+	// used for type:repo must see the same effective content
+	for i := range c.Corpus.Repos {
+		if c.Layout[i] != "multi" {
+			continue
+		}
+		docs := append([]kit.Doc(nil), c.Corpus.Repos[i].Docs...)
+		for j := range docs {
+			if docs[j].Skip == 0 {
+				docs[j].Skip = kit.ModelSkip(docs[j].Content, 2<<20, 20000, false)
+				if docs[j].Skip != 0 {
+					docs[j].Symbols = nil
+				}
+			}
+		}
+		c.Corpus.Repos[i].Docs = docs
+	}
 	if err := buildC18(&c, dir); err != nil {
 		return kit.Fail("build", "%v", err)
 	}
